@@ -294,7 +294,7 @@ def run_batch(exe, scripts, names, timeout=120):
     return res, (rc_i, err_i), (rc_m, err_m), (rc_s, err_s)
 
 
-def run_one(exe, script, timeout=20):
+def run_one(exe, script, timeout=8):
     name = script.splitlines()[0].split()[1]
     res, i, m, s = run_batch(exe, [script], [name], timeout)
     return res[0], i
